@@ -1393,6 +1393,22 @@ func init() {
 			}
 			return intSV(fmt.Sprintf("(sumlen1 %s %s %s)", env.fr.q.get(env.st, lf.Arr), a.V.C[0], k)), nil
 		},
+		// isnew(x): the slice or pointer x is nil or points into memory allocated by this call (its address lies at or
+		// above the allocation mark of the entry state), hence cannot alias anything that existed before
+		"isnew": func(env *SpecEnv, x *ast.CallExpr) (SV, error) {
+			a, err := env.eval(x.Args[0])
+			if err != nil {
+				return SV{}, err
+			}
+			switch underlyingOrNil(a.T).(type) {
+			case *types.Slice, *types.Pointer:
+			default:
+				return SV{}, fmt.Errorf("isnew() needs a slice or a pointer")
+			}
+			p := a.V.C[0]
+			top0 := env.fr.q.get(env.old, "$top")
+			return SV{T: types.Typ[types.Bool], V: Val{C: []string{"(or (= " + p + " 0) (>= " + p + " " + top0 + "))"}}}, nil
+		},
 		// succeeded(): the error result is nil (true for a function without an error result)
 		"succeeded": func(env *SpecEnv, x *ast.CallExpr) (SV, error) {
 			if sv, ok := env.names["err"]; ok && len(sv.V.C) >= 1 {
